@@ -1,12 +1,25 @@
 ---- MODULE Cli ----
+(***************************************************************************)
+(* The rewrite pass of the cm-colors command on ONE stylesheet, as the     *)
+(* code does it today (C08): rules in document order; the text colour is   *)
+(* a literal, var(--x) or var(--x, fallback); custom properties come from  *)
+(* the top-level :root/html block and are UPDATED IN PLACE when a rule     *)
+(* that references one is adjusted; the fallback form is counted but not   *)
+(* written; :root/html rules are re-serialised after the pass from the     *)
+(* declarations parsed before it (Post).  The Python API is an oracle      *)
+(* table `tab` : (colour, background) -> invalid | fail | pass | tuned c.  *)
+(* MC_Cli*.cfg explore all abstract stylesheets over a 5-colour palette;   *)
+(* TrCliModel.tla binds the same actions to recorded runs of the real      *)
+(* command with the table taken from the real API.                         *)
+(***************************************************************************)
 EXTENDS Integers, Sequences, FiniteSets, TLC
 CONSTANTS NR   \* max number of style rules (besides the variable-defining :root block)
 Vars == {"x", "y"}
 Pal == 0..4            \* 0 unfixable, 1 fixable, 2 ok on L / fixable on G, 3 ok everywhere, 4 not a colour
 Bgs == {"L", "G"}
 NoneE == <<"none">>
-\* abstract API: make_readable outcome for text t on background b
-Out(t, b) == IF t = 4 THEN <<"invalid">>
+\* abstract API for model checking: make_readable outcome for text t on background b
+McOut(t, b) == IF t = 4 THEN <<"invalid">>
              ELSE IF t = 0 THEN <<"fail">>
              ELSE IF t = 1 THEN (IF b = "L" THEN <<"tuned", 2>> ELSE <<"tuned", 3>>)
              ELSE IF t = 2 THEN (IF b = "L" THEN <<"pass">> ELSE <<"tuned", 3>>)
@@ -15,8 +28,10 @@ ColExprs == {NoneE} \cup {<<"lit", k>> : k \in Pal} \cup {<<"var", v>> : v \in V
             \cup {<<"varfb", v, k>> : v \in Vars, k \in {1, 3}}
 VarDefs == {<<"undef">>} \cup {<<"lit", k>> : k \in {1, 2, 3}} \cup {<<"var", v>> : v \in Vars}
 Rules == [root : BOOLEAN, col : ColExprs, bg : {"none"} \cup Bgs]
-VARIABLES phase, sheet0, vdef, rules, i, acc, tuned, failed, cards, failedSel, rootDirty
-vars == <<phase, sheet0, vdef, rules, i, acc, tuned, failed, cards, failedSel, rootDirty>>
+VARIABLES tab, phase, sheet0, vdef, rules, i, acc, tuned, failed, cards, failedSel, rootDirty
+vars == <<tab, phase, sheet0, vdef, rules, i, acc, tuned, failed, cards, failedSel, rootDirty>>
+Out(t, b) == IF <<t, b>> \in DOMAIN tab THEN tab[<<t, b>>] ELSE <<"invalid">>
+McTab == [p \in Pal \X Bgs |-> McOut(p[1], p[2])]
 \* ---- variable resolution as the code does it (visited set, fallback) ----
 RECURSIVE Res(_, _, _)
 Res(e, vd, visited) ==
@@ -25,19 +40,19 @@ Res(e, vd, visited) ==
         LET v == e[2]
             fb == IF e[1] = "varfb" THEN e[3] ELSE -1
         IN IF v \in visited THEN fb
-           ELSE LET r == IF vd[v][1] = "undef" THEN -1 ELSE Res(vd[v], vd, visited \cup {v})
+           ELSE LET r == IF v \notin DOMAIN vd \/ vd[v][1] = "undef" THEN -1 ELSE Res(vd[v], vd, visited \cup {v})
                 IN IF r # -1 THEN r ELSE fb
    ELSE -1
 \* the stylesheet is built rule by rule (so that TLC can also SIMULATE behaviours: one random stylesheet per run),
 \* then frozen as sheet0 and processed
-Init == /\ phase = "build" /\ vdef \in [Vars -> VarDefs] /\ rules = <<>> /\ sheet0 = <<>>
+Init == /\ tab = McTab /\ phase = "build" /\ vdef \in [Vars -> VarDefs] /\ rules = <<>> /\ sheet0 = <<>>
         /\ i = 1 /\ acc = 0 /\ tuned = 0 /\ failed = 0 /\ cards = {} /\ failedSel = {} /\ rootDirty = {}
 AddRule == /\ phase = "build" /\ Len(rules) < NR
            /\ \E r \in Rules : rules' = Append(rules, r)
-           /\ UNCHANGED <<phase, sheet0, vdef, i, acc, tuned, failed, cards, failedSel, rootDirty>>
+           /\ UNCHANGED <<tab, phase, sheet0, vdef, i, acc, tuned, failed, cards, failedSel, rootDirty>>
 Start == /\ phase = "build" /\ Len(rules) >= 1
          /\ phase' = "run" /\ sheet0' = <<vdef, rules>>
-         /\ UNCHANGED <<vdef, rules, i, acc, tuned, failed, cards, failedSel, rootDirty>>
+         /\ UNCHANGED <<tab, vdef, rules, i, acc, tuned, failed, cards, failedSel, rootDirty>>
 Process ==
   /\ phase = "run" /\ i <= Len(rules)
   /\ LET r == rules[i] IN
@@ -54,7 +69,7 @@ Process ==
                [] o[1] = "tuned"   ->
                     /\ tuned' = tuned + 1 /\ cards' = cards \cup {<<i, o[2], b>>}
                     /\ IF r.col[1] = "var" THEN      \* rewrite the referenced definition (if any)
-                          /\ (IF vdef[r.col[2]][1] # "undef"
+                          /\ (IF r.col[2] \in DOMAIN vdef /\ vdef[r.col[2]][1] # "undef"
                               THEN vdef' = [vdef EXCEPT ![r.col[2]] = <<"lit", o[2]>>] ELSE UNCHANGED vdef)
                           /\ UNCHANGED <<rules, rootDirty>>
                        ELSE IF r.col[1] = "varfb" THEN UNCHANGED <<vdef, rules, rootDirty>>   \* F5: nothing written
@@ -62,11 +77,11 @@ Process ==
                             /\ rootDirty' = IF r.root THEN rootDirty \cup {i} ELSE rootDirty
                             /\ UNCHANGED vdef
                     /\ UNCHANGED <<acc, failed, failedSel>>
-  /\ i' = i + 1 /\ UNCHANGED <<sheet0, phase>>
+  /\ i' = i + 1 /\ UNCHANGED <<sheet0, phase, tab>>
 \* post-pass: :root/html rules are re-serialised from the declarations parsed before processing (F4)
 Post == /\ phase = "run" /\ i = Len(rules) + 1
         /\ rules' = [k \in 1..Len(rules) |-> IF k \in rootDirty THEN sheet0[2][k] ELSE rules[k]]
-        /\ i' = i + 1 /\ UNCHANGED <<phase, sheet0, vdef, acc, tuned, failed, cards, failedSel, rootDirty>>
+        /\ i' = i + 1 /\ UNCHANGED <<tab, phase, sheet0, vdef, acc, tuned, failed, cards, failedSel, rootDirty>>
 Next == AddRule \/ Start \/ Process \/ Post
 Spec == Init /\ [][Next]_vars
 Done == phase = "run" /\ i = Len(rules) + 2
@@ -80,6 +95,6 @@ ReportedIsWritten == Done => \A c \in cards : Eff(c[1]) = c[2]
 F4(k) == sheet0[2][k].root /\ sheet0[2][k].col[1] = "lit"
 F5(k) == sheet0[2][k].col[1] = "varfb"
 UsesVar(k, v) == sheet0[2][k].col[1] = "var" /\ sheet0[2][k].col[2] = v
-F6(k) == \E v \in Vars : UsesVar(k, v) /\ \E k2 \in 1..Len(rules) : k2 # k /\ UsesVar(k2, v) /\ \E c \in cards : c[1] = k2
+F6(k) == \E v \in DOMAIN vdef : UsesVar(k, v) /\ \E k2 \in 1..Len(rules) : k2 # k /\ UsesVar(k2, v) /\ \E c \in cards : c[1] = k2
 ReportedIsWrittenModuloKnown == Done => \A c \in cards : Eff(c[1]) = c[2] \/ F4(c[1]) \/ F5(c[1]) \/ F6(c[1])
 ====
